@@ -321,6 +321,95 @@ def domain_fresh(ctx, R):
     R.check(v is not None and v.equals(expected_affine(xx, e0, e1, q0, q1)), "C12.DOMAIN-FRESH", LS + ".range(x) then __call__", where(fr), "after range([q0,q1]) the map runs to q0,q1", "after range([q0,q1]) scale(x) is %s" % show(v))
 
 
+_COPIERS = {"list", "tuple", "sorted", "map", "deepcopy", "copy"}
+
+
+@rule("C12.SHARED-LIST")
+def shared_list(ctx, R):
+    """A list a scale holds in `_domain` / `_range` may be known to others: the getters hand the object itself out, the
+    constructor and `range(x)` keep the caller's object (which may be another scale's list: `t.range(s.domain())`, or one
+    list given to two constructors).  The cached maps (`_output`, `_input`) of those others are not rebuilt when *this*
+    scale rewrites the list in place, so afterwards they report end points they do not map.  Hence: a field that escapes
+    (out or in) is never mutated in place by a method of the class; rewriting is done on a private copy."""
+    from ..effects import Effects, MUTATORS
+
+    P = ctx.P
+    cls = P.cls(LS)
+    eff = ctx.get("effects", lambda: Effects(P, ctx.cg.resolver()))
+    resolve = ctx.cg.resolver()
+    FIELDS = ("_domain", "_range")
+    out_sites = {a: [] for a in FIELDS}
+    in_sites = {a: [] for a in FIELDS}
+    mut_sites = {a: [] for a in FIELDS}
+    seen = set()
+    for m in cls.methods.values():
+        if m is None or m.qual in seen or not m.params or m.is_lambda:
+            continue
+        seen.add(m.qual)
+        R.saw(m)
+        selfn = m.params[0]
+        alias = {}
+        for n in walk_local(m.node):
+            if isinstance(n, ast.Assign) and len(n.targets) == 1 and isinstance(n.targets[0], ast.Name) and isinstance(n.value, ast.Attribute) \
+                    and isinstance(n.value.value, ast.Name) and n.value.value.id == selfn and n.value.attr in FIELDS:
+                alias[n.targets[0].id] = n.value.attr
+
+        def field_obj(e):
+            """The field whose list object the expression denotes (not a copy, not an element)."""
+            if isinstance(e, ast.Attribute) and isinstance(e.value, ast.Name) and e.value.id == selfn and e.attr in FIELDS:
+                return e.attr
+            if isinstance(e, ast.Name) and e.id in alias:
+                return alias[e.id]
+            return None
+
+        def as_given(e):
+            """Parameters whose object the expression may denote unchanged (through conditional expressions / `or`)."""
+            if isinstance(e, ast.Name) and e.id in m.params[1:]:
+                return [e.id]
+            if isinstance(e, ast.IfExp):
+                return as_given(e.body) + as_given(e.orelse)
+            if isinstance(e, ast.BoolOp):
+                return [x for v in e.values for x in as_given(v)]
+            return []
+
+        for n in walk_local(m.node):
+            if isinstance(n, ast.Return) and n.value is not None and field_obj(n.value):
+                out_sites[field_obj(n.value)].append((m, n))
+            if isinstance(n, (ast.Assign, ast.AugAssign, ast.AnnAssign, ast.Delete)):
+                tgts = n.targets if isinstance(n, (ast.Assign, ast.Delete)) else [n.target]
+                for t in tgts:
+                    if isinstance(t, ast.Subscript) and field_obj(t.value):
+                        mut_sites[field_obj(t.value)].append((m, n, "stores into it"))
+                    if isinstance(n, ast.Assign) and isinstance(t, ast.Attribute) and isinstance(t.value, ast.Name) and t.value.id == selfn and t.attr in FIELDS and as_given(n.value):
+                        in_sites[t.attr].append((m, n, as_given(n.value)[0]))
+                if isinstance(n, ast.AugAssign) and field_obj(n.target):
+                    mut_sites[field_obj(n.target)].append((m, n, "augments it in place"))
+            if isinstance(n, ast.Call):
+                if isinstance(n.func, ast.Attribute) and n.func.attr in MUTATORS and field_obj(n.func.value):
+                    mut_sites[field_obj(n.func.value)].append((m, n, "calls .%s() on it" % n.func.attr))
+                for g, bound in resolve(n, m):
+                    params = list(g.params)
+                    if bound and params:
+                        params = params[1:]
+                    for i, a in enumerate(n.args):
+                        if i < len(params) and field_obj(a) and eff.mutates(g, params[i]):
+                            mut_sites[field_obj(a)].append((m, n, "passes it to %s, which rewrites its argument in place" % g.qual))
+                    for kw in n.keywords:
+                        if kw.arg in params and field_obj(kw.value) and eff.mutates(g, kw.arg):
+                            mut_sites[field_obj(kw.value)].append((m, n, "passes it to %s, which rewrites its argument in place" % g.qual))
+    n_esc = 0
+    for a in FIELDS:
+        esc = ["%s() returns the list itself" % m.name for m, _ in out_sites[a]] + ["%s keeps the caller's `%s` as given" % (m.name, pn) for m, _, pn in in_sites[a]]
+        n_esc += len(esc)
+        if not mut_sites[a]:
+            R.ok("C12.SHARED-LIST", "%s.%s never rewritten in place" % (LS, a), where(P.func(LS + ".__init__")), "no method stores into, calls a mutator on, or hands the list to a mutating callee (%d ways it is shared: %s)" % (len(esc), "; ".join(esc) or "none"))
+            continue
+        for m, n, how in mut_sites[a]:
+            R.check(not esc, "C12.SHARED-LIST", "%s.%s|%s" % (LS, a, m.name), where(m, n), "%s rewrites the list in place, and the list is never shared" % m.name,
+                    "%s.%s %s (`%s`), but the same list object may be held elsewhere: %s.  A scale that obtained it (`t.range(s.domain())`, or two scales constructed from one list) then reports end points its cached map does not go through, and a copy and its original influence each other" % (m.name, a, how, ntext(n)[:70], "; ".join(esc)))
+    R.check(n_esc + sum(len(v) for v in mut_sites.values()) >= 1, "C12.SHARED-LIST.inventory", "escape / mutation sites examined: %d" % (n_esc + sum(len(v) for v in mut_sites.values())), "", "", "no getter, constructor store or in-place rewrite of the scale's lists was recognised", nontrivial=False)
+
+
 @rule("C12.REPORTS")
 def reports(ctx, R):
     P = ctx.P
@@ -381,4 +470,4 @@ def state_rule(ctx, R):
     })
 
 
-RULES = [affine, endpoint_exact, clamp_rule, rescale_rule, copy_fresh, domain_fresh, reports, state_rule]
+RULES = [affine, endpoint_exact, clamp_rule, rescale_rule, copy_fresh, domain_fresh, shared_list, reports, state_rule]
